@@ -35,6 +35,14 @@ def theorems_of(pid):
     return res
 
 
+def file_theorems(relv):
+    try:
+        txt = open(os.path.join(vlib.COQ, relv)).read()
+    except FileNotFoundError:
+        return []
+    return re.findall(r"^(?:Theorem|Lemma|Corollary)\s+(\w+)", txt, flags=re.M)
+
+
 def coq_part(ctx, pid, extra_targets=()):
     """build every Properties/<pid>*.v; one obligation per theorem; returns list of broken theorem names"""
     files = sorted(glob.glob(os.path.join(vlib.COQ, "Properties", pid + "*.v")))
@@ -46,6 +54,8 @@ def coq_part(ctx, pid, extra_targets=()):
     for t in targets:       # one make per file so that Print Assumptions output is not interleaved
         ok, log = ctx.coq([t])
         names = [n for f, n in theorems_of(pid) if f[:-2] + ".vo" == os.path.basename(t)]
+        if t in extra_targets:
+            names = file_theorems(t[:-1])
         for n in names:
             closed = ctx.assumption_report.get(n, "")
             ctx.obligation("theorem %s (%s)" % (n, t), ok, "" if ok else getattr(ctx, "coq_failure", "")[:600])
@@ -55,7 +65,7 @@ def coq_part(ctx, pid, extra_targets=()):
 
 
 def run_engine_check(ctx, pid, profiles, monitors, n_quick, n_thorough, known_ok=(), extra_cases=None, drained=True,
-                     with_data=None, case_filter=None, subs=()):
+                     with_data=None, case_filter=None, subs=(), extra_targets=(), impl_only=None):
     t0 = time.time()
     n = n_thorough if ctx.tier == "thorough" else n_quick
     for t in ENGINE_TRUSTED:
@@ -63,7 +73,7 @@ def run_engine_check(ctx, pid, profiles, monitors, n_quick, n_thorough, known_ok
     if os.path.exists(os.path.join(vlib.VERIF, "gen", "go2coq", "main.go")):
         ctx.gen()
     run = ec.Runner(ctx)
-    broken = coq_part(ctx, pid)
+    broken = coq_part(ctx, pid, extra_targets)
     # ------------------------------------------------------------------ cases: corpus first
     cases, origin = [], {}
     cid = 0
@@ -112,8 +122,13 @@ def run_engine_check(ctx, pid, profiles, monitors, n_quick, n_thorough, known_ok
             if r and sig not in ROOT_CAUSES:
                 sig = sig + "<-" + ROOT_CAUSES[r[0]]
             hits.setdefault(sig, []).append((c, desc, idx, name))
-    # ------------------------------------------------------------------ classification
+    # ------------------------------------------------------------------ implementation-only scenarios (boundary sizes the model cannot run fast)
     new_inputs = 0
+    if impl_only:
+        for sig, desc, rep in impl_only(ctx, run):
+            if ctx.violation(sig, desc, rep, found_input=True) == "new":
+                new_inputs += 1
+    # ------------------------------------------------------------------ classification
     for sig, lst in hits.items():
         c, desc, idx, name = min(lst, key=lambda x: len(x[0]))
         short = run.shrink(c, lambda cc: _still(run, cc, name, sig), max_rounds=60) if len(c) > 8 else c
